@@ -345,6 +345,12 @@ func parseContracts(path string) (*ContractFile, error) {
 			}
 			c.Name = strings.TrimSpace(rest[:j])
 			rest = strings.TrimSpace(rest[j+2:])
+			if strings.HasSuffix(rest, "@entry") {
+				c.When = "entry"
+				c.Expr = strings.TrimSpace(strings.TrimSuffix(rest, "@entry"))
+				cur.Clauses = append(cur.Clauses, c)
+				continue
+			}
 			k := strings.LastIndex(rest, "@")
 			if k < 0 {
 				return nil, fmt.Errorf("line %d: ghost needs @before/@after", no)
